@@ -956,6 +956,7 @@ type hint =
 | HNone
 | HHandle of handle
 | HNoSpace
+| HShort of n
 
 val resolve : params -> afs -> handle -> (inum * obj) option
 
@@ -1154,7 +1155,7 @@ val dir_agree : afs -> inum -> n -> odirent list -> bool -> bool
 
 val agree : afs -> reply -> oreply -> bool
 
-val hint_of : oreply -> hint
+val hint_of : call -> oreply -> hint
 
 type mismatch =
 | MMissing of n
